@@ -20,6 +20,7 @@ extern "C" {
 #include <dbus/dbus-list.h>
 void _bus_verif_set_unique_name_counter(int major, int minor);
 extern void (*_bus_verif_probe)(const char *what, DBusConnection *connection, DBusMessage *message);
+extern void (*_bus_verif_probe_reply_expired)(DBusConnection *will_get_reply, DBusConnection *will_send_reply, dbus_uint32_t reply_serial);
 }
 
 using core::fail;
@@ -113,12 +114,18 @@ static void probe_cb(const char *what, DBusConnection *conn, DBusMessage *msg) {
   if (dbus_message_is_signal(msg, "org.freedesktop.DBus.Local", "Disconnected")) g_world->live_conns.erase(conn);
 }
 
+static void expired_cb(DBusConnection *caller, DBusConnection *callee, dbus_uint32_t serial) {
+  if (!g_world || !g_world->on_reply_expired) return;
+  g_world->on_reply_expired(g_world->client_of_connection(caller), g_world->client_of_connection(callee), serial);
+}
+
 World::World(core::Trace &t, uint64_t s) : tr(t), seed(s) {
   simk::kernel_init();
   K->reset(s);
   K->trace = [this](const char *what, int64_t a, int64_t b) { tr.ev("k %s %lld %lld", what, (long long)a, (long long)b); };
   g_world = this;
   _bus_verif_probe = probe_cb;
+  _bus_verif_probe_reply_expired = expired_cb;
   scratch = scratch_dir();
 }
 
@@ -138,6 +145,7 @@ World::~World() {
     for (auto &kv : c.out_fds) for (int fd : kv.second) simk::real_close(fd);
   }
   _bus_verif_probe = nullptr;
+  _bus_verif_probe_reply_expired = nullptr;
   g_world = nullptr;
   K->trace = nullptr;
   K->reset(1);
